@@ -133,7 +133,7 @@ def check_calls(prop, tier, seed, collect=False):
         for c in jobs:
             f.write(json.dumps(c) + "\n")
     deadline = 10000
-    run([VH, "calls", "--cases", cpath, "--out", os.path.join(wd, "tr"), "--shards", str(NCPU), "--deadline-ms", str(deadline)], cwd=wd, timeout=7200)
+    run([VH, "calls", "--cases", cpath, "--out", os.path.join(wd, "tr"), "--shards", str(NCPU), "--deadline-ms", load_scaled(deadline)], cwd=wd, timeout=7200)
     traces = [os.path.join(wd, f"tr.{i}.ndjson") for i in range(NCPU)]
     log(f"[{prop}] calls executed ({time.time()-t0:.0f}s)")
     agg = aggregate(validate(traces, wd, spec="TraceCalls.tla", cfg=TRACE_CFG))
@@ -265,7 +265,7 @@ def check_diag(prop, tier, seed, collect=False):
     with open(cpath, "w") as f:
         for c in jobs:
             f.write(json.dumps(c) + "\n")
-    run([VH, "calls", "--cases", cpath, "--out", os.path.join(wd, "tr"), "--shards", str(NCPU), "--deadline-ms", "10000"], cwd=wd, timeout=7200)
+    run([VH, "calls", "--cases", cpath, "--out", os.path.join(wd, "tr"), "--shards", str(NCPU), "--deadline-ms", load_scaled(10000)], cwd=wd, timeout=7200)
     traces = [os.path.join(wd, f"tr.{i}.ndjson") for i in range(NCPU)]
     log(f"[{prop}] compiled / rendered / run ({time.time()-t0:.0f}s)")
     agg = aggregate(validate(traces, wd, spec="TraceDiag.tla", cfg=TRACE_CFG))
@@ -869,7 +869,7 @@ def check_laws(prop, tier, seed):
     with open(cpath, "w") as f:
         for c in cases:
             f.write(json.dumps(c) + "\n")
-    run([VH, "calls", "--cases", cpath, "--out", os.path.join(wd, "tr"), "--shards", str(NCPU), "--deadline-ms", "10000"], cwd=wd, timeout=7200)
+    run([VH, "calls", "--cases", cpath, "--out", os.path.join(wd, "tr"), "--shards", str(NCPU), "--deadline-ms", load_scaled(10000)], cwd=wd, timeout=7200)
     traces = [os.path.join(wd, f"tr.{i}.ndjson") for i in range(NCPU)]
     agg = aggregate(validate(traces, wd, spec="FnLaws.tla", cfg=TRACE_CFG))
     cnt = agg["cnt"]
@@ -972,7 +972,7 @@ def check_tz(prop, tier, seed):
     with open(cpath, "w") as f:
         for c in cases:
             f.write(json.dumps(c) + "\n")
-    run([VH, "calls", "--cases", cpath, "--out", os.path.join(wd, "tr"), "--shards", str(NCPU), "--deadline-ms", "20000"], cwd=wd, timeout=7200)
+    run([VH, "calls", "--cases", cpath, "--out", os.path.join(wd, "tr"), "--shards", str(NCPU), "--deadline-ms", load_scaled(20000)], cwd=wd, timeout=7200)
     traces = [os.path.join(wd, f"tr.{i}.ndjson") for i in range(NCPU)]
     agg = aggregate(validate(traces, wd, spec="Tz.tla", cfg=TRACE_CFG))
     cnt = agg["cnt"]
@@ -1130,7 +1130,7 @@ def check_dd(prop, tier, seed):
     with open(cpath, "w") as f:
         for c in cases:
             f.write(json.dumps(c) + "\n")
-    run([VH, "calls", "--cases", cpath, "--out", os.path.join(wd, "tr"), "--shards", str(NCPU), "--deadline-ms", "20000"], cwd=wd, timeout=7200)
+    run([VH, "calls", "--cases", cpath, "--out", os.path.join(wd, "tr"), "--shards", str(NCPU), "--deadline-ms", load_scaled(20000)], cwd=wd, timeout=7200)
     traces = [os.path.join(wd, f"tr.{i}.ndjson") for i in range(NCPU)]
     agg = aggregate(validate(traces, wd, spec="FnLaws.tla", cfg=TRACE_CFG))
     cnt = agg["cnt"]
@@ -1206,7 +1206,7 @@ def check_grok(prop, tier, seed):
     with open(cpath, "w") as f:
         for c in cases:
             f.write(json.dumps(c) + "\n")
-    run([VH, "calls", "--cases", cpath, "--out", os.path.join(wd, "tr"), "--shards", str(NCPU), "--deadline-ms", "20000"], cwd=wd, timeout=7200)
+    run([VH, "calls", "--cases", cpath, "--out", os.path.join(wd, "tr"), "--shards", str(NCPU), "--deadline-ms", load_scaled(20000)], cwd=wd, timeout=7200)
     traces = [os.path.join(wd, f"tr.{i}.ndjson") for i in range(NCPU)]
     agg = aggregate(validate(traces, wd, spec="FnLaws.tla", cfg=TRACE_CFG))
     cnt = agg["cnt"]
@@ -1345,7 +1345,7 @@ def check_digests(prop, tier, seed):
     with open(cpath, "w") as f:
         for c in cases:
             f.write(json.dumps(c) + "\n")
-    run([VH, "calls", "--cases", cpath, "--out", os.path.join(wd, "tr"), "--shards", str(NCPU), "--deadline-ms", "10000"], cwd=wd, timeout=7200)
+    run([VH, "calls", "--cases", cpath, "--out", os.path.join(wd, "tr"), "--shards", str(NCPU), "--deadline-ms", load_scaled(10000)], cwd=wd, timeout=7200)
     traces = [os.path.join(wd, f"tr.{i}.ndjson") for i in range(NCPU)]
     agg = aggregate(validate(traces, wd, spec="CrcTrace.tla", cfg=TRACE_CFG))
     cnt = agg["cnt"]
